@@ -157,6 +157,10 @@ fn main() {
             }
             std::process::exit(if bad == 0 { 0 } else { 2 });
         }
+        "refdump" => {
+            println!("{}", refdump(seed));
+            std::process::exit(0);
+        }
         "transcript" => {
             c18::transcript_main(seed);
             std::process::exit(0);
@@ -200,6 +204,48 @@ fn main() {
             std::process::exit(run.finish(&meta));
         }
     }
+}
+
+/// a dump of reference-model results for the independent python cross-check (py/xcheck.py)
+fn refdump(seed: u64) -> Value {
+    use refmodel::{consts, ec_mul, q, r, F12, F2, Fld, Pt, N};
+    use serde_json::json;
+    let hx = |x: &N| format!("{:x}", x);
+    let c = consts();
+    let p = q();
+    let mut vals = mccore::alpha::special(p);
+    vals.extend(mccore::alpha::generic(p, seed, 0xd0, 12));
+    let mut fqs = vec![];
+    for (i, a) in vals.iter().enumerate() {
+        let b = &vals[(i * 7 + 3) % vals.len()];
+        fqs.push(json!({"a": hx(a), "b": hx(b), "mul": hx(&refmodel::mulm(a, b, p)), "add": hx(&refmodel::addm(a, b, p)), "sub": hx(&refmodel::subm(a, b, p)),
+            "inv": refmodel::invm(a, p).map(|v| hx(&v)), "is_square": refmodel::is_square_mod(a, p), "sqrt": refmodel::sqrt_mod(a, p).map(|v| hx(&v))}));
+    }
+    let j2 = |x: &F2| json!([hx(&x.a), hx(&x.b)]);
+    let mut f2s = vec![];
+    for i in 0..24 {
+        let x = F2 { a: vals[(i * 5) % vals.len()].clone(), b: vals[(i * 3 + 1) % vals.len()].clone() };
+        let y = F2 { a: vals[(i * 11 + 2) % vals.len()].clone(), b: vals[(i + 7) % vals.len()].clone() };
+        f2s.push(json!({"x": j2(&x), "y": j2(&y), "mul": j2(&x.mul(&y)), "inv": x.inv().map(|v| j2(&v)), "is_square": x.is_square(), "sqrt": x.sqrt().map(|v| j2(&v))}));
+    }
+    let j12 = |x: &F12| json!(x.0.iter().map(|v| hx(v)).collect::<Vec<_>>());
+    let gens = mccore::alpha::generic(p, seed, 0xd12, 48);
+    let mut f12s = vec![];
+    for i in 0..3 {
+        let a = F12::from_coeffs(&gens[i * 12..i * 12 + 12]);
+        let b = F12::from_coeffs(&gens[((i + 1) % 4) * 12..((i + 1) % 4) * 12 + 12]);
+        f12s.push(json!({"a": j12(&a), "b": j12(&b), "mul": j12(&a.mul(&b)), "inv": j12(&a.inv().unwrap()), "frob1": j12(&a.frobenius(1)), "bytes": refmodel::hex(&a.to_bytes())}));
+    }
+    let jp1 = |pt: &Pt<refmodel::Fq>| match pt { Pt::Inf => Value::Null, Pt::Aff(x, y) => json!([hx(&x.0), hx(&y.0)]) };
+    let jp2 = |pt: &Pt<F2>| match pt { Pt::Inf => Value::Null, Pt::Aff(x, y) => json!([j2(x), j2(y)]) };
+    let ks = mccore::alpha::scalars(mccore::Tier::Quick, seed);
+    let mults: Vec<Value> = ks.iter().map(|k| json!({"k": hx(k), "g1": jp1(&ec_mul(&c.g1, k)), "g2": jp2(&ec_mul(&c.g2, k))})).collect();
+    let mut prs = vec![];
+    for (a, b) in [(N::from(1u8), N::from(1u8)), (ks[4].clone(), ks[8].clone()), (ks[ks.len() - 1].clone(), N::from(3u8))] {
+        let v = refmodel::pairing(&ec_mul(&c.g1, &a), &ec_mul(&c.g2, &b));
+        prs.push(json!({"a": hx(&a), "b": hx(&b), "bytes": refmodel::hex(&v.to_bytes())}));
+    }
+    json!({"q": hx(p), "r": hx(r()), "fq": fqs, "f2": f2s, "f12": f12s, "g1": jp1(&c.g1), "g2": jp2(&c.g2), "mults": mults, "pairings": prs})
 }
 
 /// re-execute one recorded case on the real code, without any explorer; twice, with identical outcome
